@@ -147,7 +147,7 @@ def _static_callee(term):
     return term.get("callee") if term.get("callee_local") else None
 
 
-def _inline_one(caller, bi, callee, types):
+def _inline_one(caller, bi, callee, types, keep_call=False):
     term = caller["blocks"][bi]["term"]
     gen = callee.get("generics") or []
     args = term.get("callee_args") or []
@@ -188,6 +188,10 @@ def _inline_one(caller, bi, callee, types):
             nb["term"] = nt
         caller["blocks"].append(nb)
     blk["term"] = {"ln": term.get("ln"), "k": "goto", "t": boff, "inl_call": callee["id"]}
+    if keep_call:
+        # a KNOWN function inlined along a new call edge: the call itself stays visible to the rules that look for calls of that
+        # function by name (Body.calls yields it), next to its spliced body
+        blk["term"]["inl_term"] = term
     caller.setdefault("inlined", [])
     if callee["id"] not in caller["inlined"]:
         caller["inlined"].append(callee["id"])
@@ -269,7 +273,7 @@ def inline_program(j, config):
                     continue
                 callee = pristine[c]
                 n0 = len(b["blocks"])
-                if _inline_one(b, bi - 1, callee, j["types"]):
+                if _inline_one(b, bi - 1, callee, j["types"], keep_call=not is_novel):
                     for nb in b["blocks"][n0:]:
                         nb["owner"] = owner if is_novel else c
                         nb["stack"] = tuple(stack) + (c,)
